@@ -766,6 +766,22 @@ impl Sim {
         self.ticks += 1;
     }
 
+    /// Lock contention as a schedule: another thread takes the pool lock and keeps it for `us` microseconds; returns once
+    /// the lock is held (None without a pool). Code that takes the lock blocks a little; code that only *tries* to take
+    /// it (and skips its work otherwise) shows what it skips.
+    pub fn hold_pool_lock(&self, us: u64) -> Option<std::thread::JoinHandle<()>> {
+        let lock = self.svc.as_ref()?.verif_lock()?;
+        let (tx, rx) = std::sync::mpsc::channel();
+        let h = std::thread::spawn(move || {
+            lock.hold(move || {
+                let _ = tx.send(());
+                std::thread::sleep(std::time::Duration::from_micros(us));
+            })
+        });
+        let _ = rx.recv_timeout(std::time::Duration::from_millis(200));
+        Some(h)
+    }
+
     pub fn drop_pool(&mut self) {
         self.svc = None;
     }
